@@ -69,7 +69,7 @@ Section Static.
     intros j Hj. split.
     - rewrite todo_of_app, TD. apply D. exact Hj.
     - left. apply in_map_iff in Hj. destruct Hj as [p [<- Hp]]. rewrite Forall_forall in Hl.
-      destruct (Hl p Hp) as [l0 [_ [_ X]]]. exact X.
+      destruct (Hl p Hp) as [l0 [_ [_ [X _]]]]. exact X.
   Qed.
 
   Lemma csched_prune layers : o_prune (sc_opts sc) = true ->
@@ -164,7 +164,8 @@ Section Start.
     assert (AT : forall tail, csched sc pl tail -> NoDup (map p_id (concat (pl_apply_layers pl)) ++ todo_of tail) ->
                  csched sc pl (fst (match pl_apply pl with [] => ([], 0) | _ => apply_tasks sc 0 0 (pl_apply_layers pl) end) ++ tail)).
     { intros tail HT NT. destruct (pl_apply pl); [exact HT|]. apply (csched_apply sc pl ND); [|exact NT|exact HT].
-      intros layer q. rewrite plan_of_eq. apply bp_local_ok'. }
+      intros layer q. rewrite plan_of_eq.
+      apply bp_local_ok'; [apply locals_of_NoDup|apply pobjs_NoDup|apply pobjs_disj]; exact wf_locals. }
     destruct (match pl_apply pl with [] => ([], 0) | _ => apply_tasks sc 0 0 (pl_apply_layers pl) end) as [at_ kw].
     cbn [fst] in AT. destruct (PT kw) as [P1 P2].
     assert (X : csched sc pl (at_ ++ (if o_prune (sc_opts sc) then match pl_prune pl with [] => [] | _ => prune_tasks sc 0 kw (pl_prune_layers pl) end else []) ++ [TInvSet]))
